@@ -30,12 +30,15 @@ type C08Case struct {
 	Mode    string              `json:"mode"`                 // update | format | compare
 	PreUpd  []int               `json:"pre_update,omitempty"` // compare: files updated beforehand
 	Lab     []string            `json:"labels,omitempty"`
+	// Stray: further files below regex-assembly/ that are no rule files (must be ignored by --all)
+	Stray map[string]string `json:"stray,omitempty"`
 }
 
 func (a Asm) arg() string { return strings.TrimSuffix(a.Name, ".ra") }
 
 func genC08(t *rapid.T) C08Case {
-	c := C08Case{Include: map[string]string{"include/common.ra": "shared1\nshared2\n"}}
+	c := C08Case{Include: map[string]string{"include/common.ra": "shared1\nshared2\n",
+		"include/words.ra": "foo[-_]bar\nfoo\\sbar\nfoox?bar\nfoo_bar\nshared1\nbaz\n"}, Stray: map[string]string{}}
 	lab := map[string]bool{}
 	targets := []string{"932100", "932100-chain1", "932110", "932200-chain2", "941100", "941100-chain1", "941330"}
 	n := rapid.IntRange(1, 5).Draw(t, "nfiles")
@@ -49,6 +52,15 @@ func genC08(t *rapid.T) C08Case {
 		if rapid.IntRange(0, 3).Draw(t, "inc") == 0 {
 			main = append(main, ragen.Line{K: ragen.KInclude, File: "common"})
 			lab["shared-include"] = true
+		}
+		if rapid.IntRange(0, 2).Draw(t, "exc") == 0 {
+			// include-except of one shared word list with a per-file exclude file; the exclude files all
+			// define the same name with different values
+			ex := "ex-" + tg
+			sep := rapid.SampledFrom([]string{"[-_]", "\\s", "x?", "_"}).Draw(t, "sepdef")
+			c.Include["exclude/"+ex+".ra"] = "##!> define sep " + sep + "\nfoo{{sep}}bar\nshared1\n"
+			main = append(main, ragen.Line{K: ragen.KExcept, File: "words", Excl: []string{ex}})
+			lab["include-except-with-own-definitions"] = true
 		}
 		for l := range g.Labels {
 			if l == "store" || l == "defs" || l == "nested-assemble" || l == "flag-i" || l == "prefix" {
@@ -104,6 +116,13 @@ func genC08(t *rapid.T) C08Case {
 		rf.Rules = append(rf.Rules, crsgen.Rule{ID: p + "999", Links: []crsgen.Link{{Vars: "ARGS", Op: "@rx", Operand: "untargeted"}}})
 		c.Rules = append(c.Rules, rf)
 	}
+	// stray .ra files that are not rule files, sorting before, between and after the rule files
+	for _, name := range []string{"0-scratch.ra", "932105-draft.ra", "932100.bak.ra", "notes.ra", "zz.ra"} {
+		if rapid.IntRange(0, 2).Draw(t, "stray") == 0 {
+			c.Stray[name] = "stray entry\n"
+			lab["stray-assembly-file"] = true
+		}
+	}
 	idx := make([]int, n)
 	for i := range idx {
 		idx[i] = i
@@ -131,6 +150,9 @@ func (c C08Case) tree() cli.Tree {
 	}
 	for _, a := range c.Asms {
 		t["regex-assembly/"+a.Name] = ragen.Print(a.Main, "\n", true)
+	}
+	for n, v := range c.Stray {
+		t["regex-assembly/"+n] = v
 	}
 	for _, rf := range c.Rules {
 		text, _ := rf.Render()
@@ -198,7 +220,7 @@ func checkC08(c C08Case) Outcome {
 		for _, i := range c.Perm {
 			singles = append(singles, run(sbB, rb, "regex", "format", c.Asms[i].arg()))
 		}
-		singles = append(singles, run(sbB, rb, "regex", "format", "common"))
+		singles = append(singles, run(sbB, rb, "regex", "format", "common"), run(sbB, rb, "regex", "format", "words"))
 	case "compare":
 		allRes = run(sa, ra, "regex", "compare", "--all")
 		for _, i := range c.Perm {
@@ -268,6 +290,19 @@ func checkC08(c C08Case) Outcome {
 		if strings.Join(sv, "\n") != strings.Join(av, "\n") {
 			out.Violation = "compare --all reports different per-rule verdicts than the single invocations"
 			return out
+		}
+	}
+	if c.Mode == "format" {
+		// files that cannot be addressed by a single invocation (exclude files, stray files) are left out
+		for _, t := range []cli.Tree{ta, tb} {
+			for p := range t {
+				if strings.HasPrefix(p, "regex-assembly/exclude/") {
+					delete(t, p)
+				}
+			}
+			for n := range c.Stray {
+				delete(t, "regex-assembly/"+n)
+			}
 		}
 	}
 	if d := treeDiff(ta, tb); len(d) > 0 {
